@@ -109,6 +109,9 @@ def run_case(case):
     sem = case["semiring"]
     domains = opcheck.domains_of_case(case)
     vals = tie.draw_values(tie.sym_tensors(*base_scs), case["vseed"], case["profile"])
+    if case.get("values"):  # hand-written regression cases: explicit values in the order of tie.sym_tensors
+        vals = {t: np.asarray(v, dtype=np.float64).reshape(t.shape)
+                for t, v in zip(tie.sym_tensors(*base_scs), case["values"])}
     used = ops.used_bases(case["pipe"])
     tensors = tie.sym_tensors(*[base_scs[i] for i in used])  # operands of the target are compiled with it
     oracle = ops.PipeOracle(case["pipe"], base_specs, base_scs, vals, domains)
